@@ -65,12 +65,35 @@ Theorem C12_sockaddr_unix : forall path junk, forallb (fun x => negb (Ascii.eqb 
   parse_sockaddr (Hex.hex_upper ([byte 1; byte 0] ++ path ++ nul :: junk)) = Some [(L "family", L "unix"); (L "path", path)].
 Proof. exact sockaddr_unix. Qed.
 
+(* the decoded record types (EXECVE, SOCKADDR, PROCTITLE): on a kernel-style body without the keys the
+   common steps handle, Data() is exactly the type's own decoder run over the written fields - which ties
+   the decoder theorems below to Data() itself *)
+Theorem C12_data_of_decoded_body : forall ty dec raw off fs,
+  decoder_of ty = Some dec -> skipn off raw = body fs -> Forall field_ok fs -> Forall ordinary fs -> no_common_key fs ->
+  data_of ty raw (Some off) = option_map (fun m => (render m, [])) (dec (fields_map fs)).
+Proof. exact data_of_decoded_body. Qed.
+
+(* placeholders: in a body whose fields are ordinary or carry a placeholder value (empty, ?, ?, or (null)
+   after trimming), the placeholder fields leave no entry: the map is that of the remaining fields, and a
+   key that only appears with placeholder values is absent *)
+Theorem C12_placeholders_dropped : forall d fs, Forall field_ok fs -> Forall (fun f => ordinary f \/ is_dropped f = true) fs ->
+  extract (S d) (body fs) [] =
+  fold_left (fun a f => kv_add (fst f) (text_of (snd f), value_of (snd f)) a) (filter (fun f => negb (is_dropped f)) fs) [].
+Proof. exact placeholders_dropped. Qed.
+Theorem C12_placeholder_key_absent : forall d fs k, Forall field_ok fs -> Forall (fun f => ordinary f \/ is_dropped f = true) fs ->
+  (forall f, In f fs -> fst f = k -> is_dropped f = true) -> kv_get k (extract (S d) (body fs) []) = None.
+Proof. exact placeholder_key_absent. Qed.
+
 (* the derived fields follow fixed rules: success= / res= become result=success|fail (and disappear),
    an unset auid / ses becomes "unset", a negative exit code becomes its errno name *)
 Theorem C12_result_rule : forall m o v, kv_get (L "success") m = Some (o, v) ->
   let good := isS (map lower v) "yes" || isS (map lower v) "1" || has_prefix (L "suc") (map lower v) in
   kv_get (L "result") (do_result m) = Some (newf (if good then L "success" else L "fail")) /\ kv_get (L "success") (do_result m) = None.
 Proof. exact result_rule. Qed.
+Theorem C12_result_rule_res : forall m o v, kv_get (L "success") m = None -> kv_get (L "res") m = Some (o, v) ->
+  let good := isS (map lower v) "yes" || isS (map lower v) "1" || has_prefix (L "suc") (map lower v) in
+  kv_get (L "result") (do_result m) = Some (newf (if good then L "success" else L "fail")) /\ kv_get (L "res") (do_result m) = None.
+Proof. exact result_rule_res. Qed.
 Theorem C12_unset_rule : forall k m o v, kv_get (L k) m = Some (o, v) ->
   kv_get (L k) (normalize_unset k m) = Some (o, if isS v "4294967295" || isS v "-1" then L "unset" else v).
 Proof. exact unset_rule. Qed.
@@ -89,6 +112,10 @@ Example C12_example_sockaddr6 :
   = Some ([(L "port", L "8080"); (L "addr", L "fe80::1"); (L "family", L "ipv6")], []).
 Proof. vm_compute. reflexivity. Qed.
 
+Print Assumptions C12_result_rule_res.
+Print Assumptions C12_placeholders_dropped.
+Print Assumptions C12_placeholder_key_absent.
+Print Assumptions C12_data_of_decoded_body.
 Print Assumptions C12_hex_roundtrip.
 Print Assumptions C12_quoted_field_tokenised.
 Print Assumptions C12_body_tokenised.
